@@ -392,4 +392,32 @@ theorem lookup_none_of_all {α β : Type} [BEq α] [LawfulBEq α] (l : List (α 
     simp only [List.lookup, hne]
     exact ih fun p hp => h p (List.mem_cons_of_mem _ hp)
 
+theorem counted8_eq_counted (bs : List BE) (ha : aromaCount bs = 0) : counted8 bs = counted bs := by
+  simp only [counted8, counted]
+  apply List.filter_congr
+  intro b hb
+  have h4 : (b.1 == 4) = false := by
+    simp only [aromaCount, List.length_eq_zero_iff, List.filter_eq_nil_iff] at ha
+    have := ha b hb
+    simpa using this
+  have : (b.1 != 4) = true := by simp [bne, h4]
+  simp [this]
+
+theorem scanStep_found (t : Rules) (c : Int) (r : Bool) (bs : List BE) (i h : Nat)
+    (hs : scanStep t c r bs i = .found h) :
+    ∃ rules q, valenceRules t c r (((counted8 bs).map (·.1)).sum) = some rules ∧ q ∈ rules ∧ q.h = h ∧ i ≤ h ∧
+      ruleMatches ((counted8 bs).foldl dictIncr []) q = true := by
+  simp only [scanStep] at hs
+  cases hv : valenceRules t c r (((counted8 bs).map (·.1)).sum) with
+  | none => simp [hv] at hs
+  | some rules =>
+    simp only [hv] at hs
+    cases hf : rules.find? (fun q => ruleMatches ((counted8 bs).foldl dictIncr []) q && decide (q.h ≥ i)) with
+    | none => simp [hf] at hs
+    | some q =>
+      simp only [hf, ScanStep.found.injEq] at hs
+      have hp := List.find?_some hf
+      simp only [Bool.and_eq_true, decide_eq_true_eq] at hp
+      exact ⟨rules, q, rfl, List.mem_of_find?_eq_some hf, hs, hs ▸ hp.2, hp.1⟩
+
 end ChythonModel.Proofs.C04
